@@ -664,7 +664,7 @@ Definition x_fam : family :=
             c_params := [ {| p_name := x_mid; p_ty := POpt x_Mid; p_def := Some VNull |} ] |} ];
      fam_funcs := [];
      fam_consts := [[75;48]%N];
-     fam_subs := []; fam_exports := [] |}.
+     fam_subs := []; fam_exports := []; fam_shadows := [] |}.
 (* --x.mid=Mid --x.mid.d=7 *)
 Definition x_steps_ok : list input :=
   [INested [x_mid] (RStr x_Mid); INested [x_mid; [100]%N] (RInt 7)].
@@ -1046,7 +1046,9 @@ Proof.
   unfold resolve_name at 2. rewrite D.
   destruct (filter _ (fam_classes F)) as [|k [|k2 l]] eqn:E.
   - unfold resolve_name. rewrite D, E. reflexivity.
-  - unfold resolve_name. rewrite path_of_has_dot. reflexivity.
+  - destruct (ambiguous F base s) eqn:A.
+    + unfold resolve_name. rewrite D, E, A. reflexivity.
+    + unfold resolve_name. rewrite path_of_has_dot. reflexivity.
   - unfold resolve_name. rewrite D, E. reflexivity.
 Qed.
 
@@ -1259,3 +1261,106 @@ Proof.
   destruct (expand_default F rs base dflt) as [cfg0|e]; [|reflexivity].
   rewrite !bind_ret. rewrite apply_steps_explicit. reflexivity.
 Qed.
+
+(* ---------- bare class names: accepted only if exactly one listed class carries the name --------------------
+   `listed` = get_all_subclass_paths restricted to one name: the non-abstract, public subclasses of the declared type
+   called nm.  A bare name (no ".") that the subclass branch accepts names exactly one listed class and is not
+   ambiguous (no second module defines a homonym below the declared type); in every other case - no candidate, two
+   candidates in the family, a homonym elsewhere - the item is rejected: nothing is picked silently. *)
+Definition listed (F : family) (base nm : str) : list cls :=
+  filter (fun k => str_eqb (c_name k) nm && is_subclass F (c_name k) base
+                   && negb (c_abstract k) && negb (is_private (path_of F (c_name k)))) (fam_classes F).
+
+Lemma resolve_name_bare F base nm cp :
+  has_dot nm = false -> resolve_name F base nm = Ok cp ->
+  (listed F base nm = [] /\ cp = nm) \/
+  (exists k, listed F base nm = [k] /\ ambiguous F base nm = false /\ cp = path_of F (c_name k)).
+Proof.
+  intros D H. unfold resolve_name in H. rewrite D in H. unfold listed.
+  destruct (filter _ (fam_classes F)) as [|k [|k2 l]].
+  - left. inversion H. split; reflexivity.
+  - right. destruct (ambiguous F base nm); [discriminate|]. inversion H. exists k. repeat split.
+  - discriminate.
+Qed.
+
+Lemma check_import_bare F base nm cps : has_dot nm = false -> check_import F base nm = Ok cps -> False.
+Proof.
+  intros D H. unfold check_import in H. destruct (import_obj F nm) as [o|] eqn:I; [|discriminate].
+  apply import_obj_has_dot in I. congruence.
+Qed.
+
+Lemma bare_name_unique F rs n m base prev nm v :
+  has_dot nm = false ->
+  adapt F rs n m base prev (IRaw (RStr nm)) = Ok v ->
+  exists k, listed F base nm = [k] /\ ambiguous F base nm = false.
+Proof.
+  intros D H. destruct n as [|n]; [discriminate|].
+  rewrite adapt_unfold in H. simpl as_ns in H. rewrite bind_ret in H. simpl q_cp in H.
+  apply bind_Ok in H. destruct H as [cp1 [Hc H]].
+  apply bind_Ok in H. destruct H as [cps [Hi _]].
+  destruct (resolve_name_bare F base nm cp1 D Hc) as [[_ ->]|[k [E [A _]]]].
+  - exfalso. eapply check_import_bare; eassumption.
+  - exists k. split; assumption.
+Qed.
+
+(* the same for a class name inside a dict: {"class_path": "Name", ...} *)
+Lemma bare_name_in_dict_unique F rs n m base prev d nm v :
+  has_dot nm = false -> is_spec_dict d = true -> aget s_class_path d = Some (RStr nm) ->
+  adapt F rs n m base prev (IRaw (RDict d)) = Ok v ->
+  exists k, listed F base nm = [k] /\ ambiguous F base nm = false.
+Proof.
+  intros D Sd G H. destruct n as [|n]; [discriminate|].
+  rewrite adapt_unfold in H. simpl as_ns in H. unfold as_ns_dict in H. rewrite Sd in H.
+  apply bind_Ok in H. destruct H as [q [Hq H]].
+  assert (Q : q_cp q = nm).
+  { unfold proto_of_spec_dict in Hq. rewrite G in Hq.
+    destruct (aget s_init_args d) as [[]|]; destruct (aget s_dict_kwargs d) as [[]|];
+      try discriminate; inversion Hq; reflexivity. }
+  rewrite Q in H.
+  apply bind_Ok in H. destruct H as [cp1 [Hc H]].
+  apply bind_Ok in H. destruct H as [cps [Hi _]].
+  destruct (resolve_name_bare F base nm cp1 D Hc) as [[_ ->]|[k [E [A _]]]].
+  - exfalso. eapply check_import_bare; eassumption.
+  - exists k. split; assumption.
+Qed.
+
+Lemma apply_steps_app F rs base : forall a b cfg,
+  apply_steps F rs base cfg (a ++ b) = (c <- apply_steps F rs base cfg a ;; apply_steps F rs base c b).
+Proof.
+  induction a as [|i a IH]; intros b cfg; [simpl app; rewrite (apply_steps_eq F rs base cfg []), bind_ret; reflexivity|].
+  simpl app. rewrite (apply_steps_eq F rs base cfg (i :: a ++ b)), (apply_steps_eq F rs base cfg (i :: a)).
+  destruct (adapt F rs FUEL lenient base cfg (norm_step i)) as [v|e]; [|reflexivity].
+  rewrite !bind_ret. apply IH.
+Qed.
+
+(* whole runs: whatever default and earlier items, an item that is an ambiguous (or otherwise not uniquely listed) bare
+   class name makes the parse fail *)
+Lemma not_unique_rejected F rs base dflt steps nm :
+  has_dot nm = false ->
+  (forall k, listed F base nm = [k] -> ambiguous F base nm = true) ->
+  run_with F rs base dflt (steps ++ [IRaw (RStr nm)]) = ORej.
+Proof.
+  intros D U. unfold run_with, parse_with.
+  destruct (expand_default F rs base dflt) as [cfg0|e]; [|reflexivity].
+  rewrite bind_ret, apply_steps_app.
+  destruct (apply_steps F rs base cfg0 steps) as [c|e]; [|reflexivity].
+  rewrite bind_ret, (apply_steps_eq F rs base c [IRaw (RStr nm)]). simpl norm_step.
+  destruct (adapt F rs FUEL lenient base c (IRaw (RStr nm))) as [v|e] eqn:A; [|reflexivity].
+  exfalso. destruct (bare_name_unique _ _ _ _ _ _ _ _ D A) as [k [E N]].
+  rewrite (U k E) in N. discriminate.
+Qed.
+
+(* a family with a homonym: module jvfamy: class Base(a: int = 1); class Sub(Base)(a: int = 2); class Deep(Sub)();
+   module jvfamy_alt: class Sub(Base)(a: int = 2) *)
+Definition y_Base : str := [66;97;115;101]%N.
+Definition y_Sub : str := [83;117;98]%N.
+Definition y_Deep : str := [68;101;101;112]%N.
+Definition y_fam : family :=
+  {| fam_mod := [106;118;102;97;109;121]%N;
+     fam_classes :=
+       [ {| c_name := y_Base; c_parents := []; c_abstract := false; c_varkw := false;
+            c_params := [ {| p_name := [97]%N; p_ty := PInt; p_def := Some (VInt 1) |} ] |};
+         {| c_name := y_Sub; c_parents := [y_Base]; c_abstract := false; c_varkw := false;
+            c_params := [ {| p_name := [97]%N; p_ty := PInt; p_def := Some (VInt 2) |} ] |};
+         {| c_name := y_Deep; c_parents := [y_Sub]; c_abstract := false; c_varkw := false; c_params := [] |} ];
+     fam_funcs := []; fam_consts := []; fam_subs := []; fam_exports := []; fam_shadows := [y_Sub] |}.
